@@ -833,6 +833,7 @@ pub fn c18(thorough: bool) -> Vec<Part> {
         inst.kill_switch = true;
         inst.kill_switch_late = true;
         inst.kill_install_action = true;
+        inst.kill_reinstall = true;
         inst.kill_action = true;
         inst.late_duplicates = true;
         inst.twin_without_kill = true;
